@@ -320,3 +320,26 @@ n("c17-n-helper-name", "C17", (M + "format_line.py", """    output_str = name.re
 
 
 def escape_field(field: T) -> T:"""))
+
+m("c01-trio-run-swallows", "C01", "O1.3", (R + "trio_runner.py", "        return trio.run(self._manage_payloads_trio)", """        try:
+            return trio.run(self._manage_payloads_trio)
+        except Exception:
+            self._logger.exception("trio runner failed")"""))
+m("c01-nursery-swallows", "C01", "O1.3", (R + "trio_runner.py", """        async with trio.open_nursery() as nursery:
+            async for task in receive_tasks:
+                nursery.start_soon(self._monitor_payload, task)
+            # shutting down: cancel the scope to cancel all payloads
+            nursery.cancel_scope.cancel()""", """        try:
+            async with trio.open_nursery() as nursery:
+                async for task in receive_tasks:
+                    nursery.start_soon(self._monitor_payload, task)
+                # shutting down: cancel the scope to cancel all payloads
+                nursery.cancel_scope.cancel()
+        except Exception as err:
+            self._logger.error("payload failed: %s", err)"""))
+
+m("c08-rules-sorted-reverse", "C08", "O8.4", (C + "stepwise.py", "thresholds, _rules = zip(*sorted(rules))", "thresholds, _rules = zip(*sorted(rules, reverse=True))"))
+m("c08-slaves-sorted-reverse", "C08", "O8.5", (C + "switch.py", "self._slaves = tuple(sorted(pairwise(slaves)))", "self._slaves = tuple(sorted(pairwise(slaves), reverse=True))"))
+m("c14-result-unfiltered", "C14", "O14.4", (G + "core/config.py", "        for plugin_name in toposort_flatten(dependencies, sort=False)\n        if plugin_name in plugins\n", "        for plugin_name in toposort_flatten(dependencies, sort=False)\n"))
+m("c03-flush-skips-flavours", "C03", "O3.1", (R + "meta_runner.py", "        for flavour, queue in self._runner_queues.items():\n            self.register_payload(*queue, flavour=flavour)", "        for flavour, queue in self._runner_queues.items():\n            if flavour not in self._runners:\n                continue\n            self.register_payload(*queue, flavour=flavour)"))
+m("c03-queue-overwritten", "C03", "O3.1", (R + "meta_runner.py", "self._runner_queues.setdefault(flavour, []).extend(payloads)", "self._runner_queues[flavour] = list(payloads)"))
